@@ -35,6 +35,13 @@ def base_key(e):
 def run(R):
     F = R.F
     n = 0
+    # does Resource::recycle() leave the pointer null after returning it? (today: no -> "stale")
+    recycle_nulls = False
+    for rf in F.functions(qname="dispenso::Resource::recycle"):
+        pc = [p for p, e in rf.events() if e.get("k") == "call" and e.get("name") == "recycle"]
+        nl = [p for p, e in rf.events() if e.get("k") == "bin" and e.get("op") == "=" and isinstance(strip_casts(e.get("l")), dict) and strip_casts(e.get("l")).get("field") == RES
+              and isinstance(strip_casts(e.get("r")), dict) and (strip_casts(e.get("r")).get("k") == "null" or const_val(strip_casts(e.get("r"))) == 0)]
+        recycle_nulls = bool(pc) and all(any(rf.postdominates(q, p0) for q in nl) for p0 in pc)
     for fn in F.functions(cls="dispenso::Resource"):
         nm = fn.qname.split("::")[-1]
         if nm not in ("(ctor)", "operator=", "(dtor)"):
@@ -43,42 +50,112 @@ def run(R):
             continue
         is_ctor = nm == "(ctor)"
         n += 1
+        # Token model. Each handle (this / the parameter) maps to what its resource_ holds:
+        #   U uninitialised (this, in a constructor) | N null | S stale: already returned to the pool
+        #   but still non-null | L:<h> the live resource that handle h held on entry.
+        # recycle(h) returns h's live token (L -> S; the real recycle() does not null the pointer).
+        # Writes are assignments, constructor initialisers, std::swap and std::exchange on resource_.
+        others = ["var:%s" % prm["vid"] for prm in fn.params if "Resource" in prm.get("type", "")]
+        init = {"this": "U" if is_ctor else "L:this"}
+        for o in others:
+            init[o] = "L:" + o
+        init["@ret"] = ""   # tokens already returned to the pool
+        init = tuple(sorted(init.items()))
+
         def get(st, k):
-            return dict(st).get(k, "D" if (is_ctor and k == "this") else "E")
+            return dict(st).get(k, "L:" + k)
+
         def setk(st, k, v):
             d = dict(st)
             d[k] = v
             return tuple(sorted(d.items()))
-        moved_from = []
+
+        def res_base(x):
+            x = strip_casts(x)
+            if isinstance(x, dict) and x.get("k") == "member" and x.get("field") == RES:
+                return base_key(x.get("base")) or "?"
+            return None
+
+        pending = {}
+
+        def value_of(rhs, st):
+            r = strip_casts(rhs)
+            if isinstance(r, dict) and r.get("k") == "null":
+                return "N"
+            if isinstance(r, dict) and const_val(r) == 0:
+                return "N"
+            b = res_base(r)
+            if b:
+                return get(st, b)
+            if isinstance(r, dict) and r.get("sid") in pending:
+                return pending[r["sid"]]
+            return None
+
+        def write(st, tgt, val, what):
+            if val is None:
+                raise dataflow.Violation("resource_ of a handle is written from a value this analysis does not track (%s)" % what)
+            old = get(st, tgt)
+            if old.startswith("L:") and old not in [v for k, v in st if k != tgt and k != "@ret"] and val != old:
+                raise dataflow.Violation("the handle's resource pointer is overwritten while it still holds a resource (that resource is never returned to the pool)")
+            return setk(st, tgt, val)
+
         def transfer(pos, ev, st):
             k = ev.get("k")
             if k == "call" and ev.get("name") == "recycle" and (ev.get("cls") or "").endswith("Resource"):
-                b = base_key(ev.get("obj"))
-                return setk(st, b or "this", "D")
-            tgt, rhs = None, None
-            if k == "bin" and ev.get("op") == "=" and isinstance(strip_casts(ev.get("l")), dict) and strip_casts(ev.get("l")).get("field") == RES:
-                tgt, rhs = base_key(strip_casts(ev.get("l")).get("base")), ev.get("r")
+                b = base_key(ev.get("obj")) or "this"
+                tok = get(st, b)
+                if tok == "S":
+                    raise dataflow.Violation("recycle() on a handle whose (non-null) pointer was already returned: the resource is enqueued twice")
+                if tok.startswith("L:"):
+                    st = setk(st, "@ret", dict(st)["@ret"] + "|" + tok)
+                    return setk(st, b, "N" if recycle_nulls else "S")
+                return st
+            if k == "call" and ev.get("name") == "swap" and len(ev.get("args", [])) == 2:
+                a, b = res_base(ev["args"][0]), res_base(ev["args"][1])
+                if a and b:
+                    ta, tb = get(st, a), get(st, b)
+                    return setk(setk(st, a, tb), b, ta)
+                return st
+            if k == "call" and ev.get("name") == "exchange" and len(ev.get("args", [])) == 2:
+                a = res_base(ev["args"][0])
+                if a:
+                    pending[ev["sid"]] = get(st, a)
+                    return write(st, a, value_of(ev["args"][1], st), "std::exchange")
+                return st
+            if k == "bin" and ev.get("op") == "=" and res_base(ev.get("l")):
+                return write(st, res_base(ev.get("l")), value_of(ev.get("r"), st), expr_str(ev.get("r")))
             if k == "init" and ev.get("field") == RES:
-                tgt, rhs = "this", ev.get("init")
-            if tgt:
-                null = isinstance(strip_casts(rhs), dict) and strip_casts(rhs).get("k") == "null"
-                if tgt == "this" and get(st, "this") == "E":
-                    raise dataflow.Violation("the handle's resource pointer is overwritten while it may still hold a resource (that resource is never returned to the pool)")
-                if tgt != "this":
-                    if not null:
-                        raise dataflow.Violation("the moved-from handle is not nulled")
-                    moved_from.append(tgt)
-                    return setk(st, tgt, "D")
-                return setk(st, "this", "D" if null else "E")
+                return write(st, "this", value_of(ev.get("init"), st), expr_str(ev.get("init")))
+            if k == "call" and ev.get("name") not in ("recycle", "swap", "exchange"):
+                for a in ev.get("args", []):
+                    aa = strip_casts(a)
+                    if isinstance(aa, dict) and aa.get("k") == "unary" and aa.get("op") == "&" and res_base(aa.get("e")):
+                        raise dataflow.Violation("address of resource_ escapes to %s (untracked write)" % ev.get("name"))
             return st
-        vios, stats = dataflow.run(fn, (), transfer, None, None)
-        if not vios and nm in ("(ctor)", "operator="):
-            # the source must be nulled on every path that took its pointer
-            took = [(p, e) for p, e in fn.events() if (e.get("k") == "init" and e.get("field") == RES) or (e.get("k") == "bin" and e.get("op") == "=" and isinstance(strip_casts(e.get("l")), dict) and strip_casts(e.get("l")).get("field") == RES and base_key(strip_casts(e.get("l")).get("base")) == "this")]
-            nulls = {p for p, e in fn.events() if e.get("k") == "bin" and e.get("op") == "=" and isinstance(strip_casts(e.get("l")), dict) and strip_casts(e.get("l")).get("field") == RES and base_key(strip_casts(e.get("l")).get("base")) != "this" and strip_casts(e.get("r")).get("k") == "null"}
-            for p, e in took:
-                if fn.path_to_exit_avoiding(p, lambda pp, ee: pp in nulls) is not None:
-                    vios.append({"msg": "a path takes the other handle's resource without nulling it: two handles would return the same resource", "ev": e, "trail": []})
+
+        def at_exit(st):
+            d = dict(st)
+            ret = [t for t in d.pop("@ret").split("|") if t]
+            if nm == "(dtor)":
+                return None
+            toks = [v for v in d.values()]
+            for h, v in d.items():
+                if v == "S":
+                    return "handle %s is left holding a non-null pointer to a resource that was already returned to the pool: its destructor returns it a second time (two holders of one resource)" % ("*this" if h == "this" else "(the moved-from one)")
+                if v == "U":
+                    return "constructor leaves resource_ uninitialised"
+            live = [v for v in toks if v.startswith("L:")]
+            if len(live) != len(set(live)):
+                return "a path takes the other handle's resource without nulling it: two handles would return the same resource"
+            for h in list(d):
+                t = "L:" + h
+                if is_ctor and h == "this":
+                    continue
+                if t not in live and t not in ret:
+                    return "the resource held by %s on entry is neither returned to the pool nor held by any handle afterwards (leaked: acquire() eventually blocks forever)" % ("*this" if h == "this" else "the source handle")
+            return None
+
+        vios, stats = dataflow.run(fn, init, transfer, None, at_exit)
         if not vios and nm == "(dtor)":
             if fn.path_to_exit_avoiding(Pos(fn.entry, -1), lambda pp, ee: ee.get("k") == "call" and ee.get("name") == "recycle") is not None:
                 vios.append({"msg": "destructor can return without recycling the resource", "ev": None, "trail": []})
